@@ -44,6 +44,13 @@ def i_values(gw):
     )
 
 
+def desired_ok(version, vt, x):
+    """a pending desired value: text that create_message_to_set_sensor_value accepts again at every wake-up,
+    i.e. a valid `set` payload for its type in `version` without the field delimiter.  (Blanks at the end are
+    allowed here: the command carries them to the node; only the gateway's own decoder strips them.)"""
+    return is_str(x) and api.defined(version, api.SET, vt) and api.payload_ok_set(version, vt, as_str(x)) and ";" not in as_str(x)
+
+
 def i_desired(gw):
     """I-desired: every pending desired value is deliverable as a valid set command (accepted => deliverable, C08)."""
     return forall3(
@@ -51,7 +58,7 @@ def i_desired(gw):
         lambda n: gw.sensors[n].new_state,
         lambda n, c: gw.sensors[n].new_state[c].values,
         lambda n, c, vt: is_none(gw.sensors[n].new_state[c].values[vt])
-        or value_ok(gw.protocol_version, vt, gw.sensors[n].new_state[c].values[vt]),
+        or desired_ok(gw.protocol_version, vt, gw.sensors[n].new_state[c].values[vt]),
     )
 
 
